@@ -295,6 +295,39 @@ def concrete_companions(ctx):
             for k in ('prove', 'verify', 'gens'):
                 if k in ref and ref.get(k) is not None and got.get(k) is not None:
                     ctx.expect(strip(got[k]) == strip(ref[k]), 'C18:threads-differ', '%s: a racing thread returns other bytes than the sequential call (real crates, field %s)' % (tn, k), cfg, 'threads_differ')
+    # calls with DIFFERENT arguments racing the first use of what they share (the once-initialised statics serve every extension degree), then
+    # every call once more sequentially in the raced process; each fresh process is one more race
+    mixed = [{'scenario': 'gens', 'n': 2, 'cap': 1, 'x': d} for d in (1, 2, 3, 4, 5, 6)] + [TARGETS[k] for k in ('T2 n4 x2 aggregate', 'T4 n2 x6 m4')]
+    mcfg = {'scenario': 'threads', 'threads': 16, 'rounds': 1, 'steps': mixed}
+    PICK = ('prove', 'verify', 'verify_each', 'gens', 'gi', 'hi', 'g', 'h', 'g_compressed_accessor', 'precomp_units', 'panic')
+    pick = lambda o: strip({k: o.get(k) for k in PICK})
+    mref = []
+    for st in mixed:
+        fo = run_replay({'scenario': 'history', 'steps': [st]}, ctx.seed)
+        mref.append(pick(fo['steps'][0]['out']) if 'crash' not in fo else None)
+    races = 0
+    for rep in range(8 if ctx.quick() else 40):
+        o = run_replay(mcfg, ctx.seed)
+        if 'crash' in o:
+            ctx.inconclusive.append('replay crate crashed on the mixed threads scenario')
+            break
+        races += 1
+        bad = None
+        for k, ref in enumerate(mref):
+            if ref is None:
+                continue
+            got_t = json.loads(o['references'][k]) if o['references'][k] and o['references'][k].startswith('{') else o['references'][k]
+            if strip(got_t) != ref:
+                bad = 'step %d (%s) run by a racing thread' % (k, json.dumps(mixed[k])[:80])
+            elif strip(o['after'][k]) != ref:
+                bad = 'step %d (%s) run sequentially after the race' % (k, json.dumps(mixed[k])[:80])
+            if bad:
+                break
+        ctx.expect(not o['differences'] and bad is None, 'C18:threads-differ', 'calls with different arguments racing the first use (real crates): %s returns other bytes than in a fresh sequential process%s' % (
+            bad or 'a thread', (' / threads disagree: ' + str(o['differences'])[:200]) if o['differences'] else ''), mcfg, 'threads_differ')
+        if bad or o['differences']:
+            break
+    m += races
     ctx.extra['concrete_companions'] = {'history_cases_compared_bytewise_on_real_crates': n, 'racing_first_use_runs': m, 'threads': 8, 'rounds_per_run': 3,
                                         'note': 'concrete executions; they can confirm a difference, they decide nothing about schedules'}
 
